@@ -1080,7 +1080,7 @@ struct static_array<T, ::boost::multi::dimensionality_type{0}, Alloc>  // NOLINT
 	#pragma clang diagnostic ignored "-Wunsafe-buffer-usage"
 	#endif
 
-	constexpr auto operator=(static_array&& other) noexcept(!multi::allocator_traits<allocator_type>::propagate_on_container_move_assignment::value || multi::allocator_traits<allocator_type>::is_always_equal::value) -> static_array& {
+	constexpr auto operator=(static_array&& other) noexcept(std::is_nothrow_move_assignable_v<typename static_array::element_type> && (!multi::allocator_traits<allocator_type>::propagate_on_container_move_assignment::value || multi::allocator_traits<allocator_type>::is_always_equal::value)) -> static_array& {  // the element is move-assigned: an element whose move assignment throws must reach the caller
 		assert(equal_extensions_if_(std::integral_constant<bool, (static_array::rank_v != 0)>{}, other));  // NOLINT(cppcoreguidelines-pro-bounds-array-to-pointer-decay,hicpp-no-array-decay) : allow a constexpr-friendly assert
 		if(this == &other) {
 			return *this;
